@@ -23,6 +23,27 @@ def names_of_text(text):
   return _names_cache[text]
 
 
+_free_cache = {}
+
+
+def free_names_of_text(text):
+  """Names read from the enclosing scope (comprehension / lambda variables excluded)."""
+  if text not in _free_cache:
+    try:
+      t = ast.parse(text, mode='eval')
+    except SyntaxError:
+      _free_cache[text] = frozenset()
+      return _free_cache[text]
+    bound = set()
+    for n in ast.walk(t):
+      if isinstance(n, ast.comprehension):
+        bound |= {x.id for x in ast.walk(n.target) if isinstance(x, ast.Name)}
+      elif isinstance(n, ast.Lambda):
+        bound |= {a.arg for a in n.args.args + n.args.kwonlyargs}
+    _free_cache[text] = frozenset(n.id for n in ast.walk(t) if isinstance(n, ast.Name)) - bound
+  return _free_cache[text]
+
+
 def stored_names(node, mutations=True):
   """Names (re)bound (and, with mutations=True, mutated in place) by executing
   CFG node's own code (not its nested blocks)."""
@@ -172,8 +193,21 @@ def std_facts(prog, f, g=None, extra_kill=None, attr_kill=None, expand=True):
           return True
       return False
     if fact[0] == 'def':
-      return fact[1] in stored_names(node, mutations=False)
+      stn = stored_names(node, mutations=False)
+      if fact[1] in stn:
+        return True
+      # the defining expression no longer describes the value once one of its operands is re-bound
+      # (x = f(s); s = g(s): `x` is f of the *old* s)
+      if stn and (free_names_of_text(fact[2]) & stn) and not _self_def(node, fact):
+        return True
+      return False
     return False
+
+  def _self_def(node, fact):
+    # the very statement that creates the fact (s = s.replace(...)) must not kill it again
+    a = node.ast
+    return node.kind == 'stmt' and isinstance(a, (ast.Assign, ast.AnnAssign)) and fact[2] == u(a.value if a.value is not None else a) \
+        if a is not None else False
 
   facts1 = g.must_facts(edge_facts, kill)
   if not expand:
